@@ -140,6 +140,36 @@ def run(chk, scratch):
                         chk.violation("alignment-partition-changes-output:%s:%s" % (name.split("-", 1)[1], suffix),
                                       "world=%d: %s differs as a multiset of records between one BAM and %s; only in one-BAM run: %s; only in split run: %s" %
                                       (seed, suffix, name, [x[:120] for x in only_a], [x[:120] for x in only_b]), wit)
+        # the annotation at the SAME path replaced by other content (fewer genes) while the conversion cache is warm: file time older than
+        # the cached database (restored backup, cp -p, rsync -t), then newer (edited); both must equal a fresh conversion of the new content
+        all_genes = w.genes
+        w.genes = [g for g in all_genes if not g.id.endswith("_2")]
+        gtf_b = os.path.join(d, "b.gtf")
+        w.write_gtf(gtf_b)
+        w.genes = all_genes
+        st = os.stat(gtf)
+        rb = one(("refB", ["-g", gtf_b, "--complete_genedb", "--bam", bam], "home_refB", "annotation-cache"))
+        if rb[3]["rc"] != 0:
+            chk.inconclusive.append("world=%d: reference run on the replaced annotation did not finish (%s)" % (seed, rb[3]["rc"]))
+        else:
+            for name, mtime in (("replaced-older", st.st_mtime - 7200), ("replaced-newer", st.st_mtime + 5)):
+                shutil.copyfile(gtf_b, gtf)
+                os.utime(gtf, (mtime, mtime))
+                rn, out, ev, r = one((name, ["-g", gtf, "--complete_genedb", "--bam", bam], "home_ref", "annotation-cache"))
+                wit = {"world_seed": seed, "representation": name}
+                chk.note()
+                if r["rc"] is None:
+                    chk.inconclusive.append("watchdog expired: world=%d %s" % (seed, name))
+                    continue
+                if r["rc"] != 0:
+                    chk.violation("run-failed:" + name, "world=%d %s: %s" % (seed, name, pipeline.fail_text(r)), wit)
+                    continue
+                chk.nontrivial.add((name, 1, False, "Gene annotation file found" in r["out"]))
+                for rel, why in runner.compare_trees(os.path.join(rb[1], pipeline.PREFIX), os.path.join(out, pipeline.PREFIX)):
+                    chk.violation("annotation-representation-changes-output:%s:%s" % (name, rel.split(".", 1)[1] if "." in rel else rel),
+                                  "world=%d: %s %s between a fresh conversion of the annotation and the run that found another annotation's database "
+                                  "cached under the same path (%s)" % (seed, rel, why, name), wit)
+                outs[name] = out
         chk.sample({"world": seed, "representations_compared": sorted(n for n in outs if n != "ref")}, limit=2)
         if chk.violations and not getattr(chk, "witness_files", None):
             chk.witness_files = [os.path.join(d, f) for f in os.listdir(d) if f.endswith((".bam", ".bai", ".gtf", ".gz", ".fa"))]
